@@ -1502,6 +1502,12 @@ def site_rewrite(ctx, sf, it, rule, anchor, nth, ropts, what):
         elif toks[b - 1].text == ";":
             end = e
             call_semi = True
+        elif ropts.get("to_call_end"):
+            # the anchor ends with the `(` of a call: the replaced region runs to the matching `)`, whatever the arguments are now
+            # (with $n capture the stub receives them, so an edit of an argument is seen by the verifier instead of losing the anchor)
+            if toks[b - 1].text != "(":
+                raise LostAnchor(f"{what}: O1 to_call_end: anchor {anchor!r} must end with `(`")
+            end = toks[pair[b - 1]].end
         elif ropts.get("to_semicolon", True) not in ("", "0", False):
             depth_k = b
             while toks[depth_k].text != ";":
@@ -1545,7 +1551,7 @@ def site_rewrite(ctx, sf, it, rule, anchor, nth, ropts, what):
                 call = call.replace(f"${n_}", " ".join(args_[n_ - 1].split()))
             if re.search(r"\$\d", call):
                 raise LostAnchor(f"{what}: O1 argument capture: the call in {anchor!r} has {len(args_)} arguments")
-        edits.append(Edit(s, end, call + ("\n" if ropts.get("to_body_end") else ";" if (end != e or toks[b - 1].text == ";") else "")))
+        edits.append(Edit(s, end, call + ("\n" if ropts.get("to_body_end") else "" if ropts.get("to_call_end") else ";" if (end != e or toks[b - 1].text == ";") else "")))
         ctx.fire("O1", sf, s, f"opaque statement -> {call}")
     elif rule == "N12L":
         # alpha-renaming of a local that shadows a parameter (`let pos = pos.into();`): the binding in the anchor and every
